@@ -77,4 +77,8 @@ EmitDecode == ~(InFamily /\ Smallest /\ ~coprime /\ ~rotated) \/
     PrintT(<<"DECODE", C(code).name, cdef, ndef, dec, em, Size[1], Size[2], Size[3]>>)
 EmitNames == ~(AtRest /\ cdef = "None" /\ ~rotated /\ ~coprime /\ L = 1) \/
     PrintT(<<"NAMES", C(code).name, AllowedSeq(code), C(code).deformations>>)
+\* sessions (simulation mode): the code-data request the client sends after
+\* every menu action, in order; level 1 starts a new session
+SmallL == L <= 4
+EmitStep == PrintT(<<"STEP", TLCGet("level"), C(code).name, cdef, rotated, Size[1], Size[2], Size[3], InFamily>>)
 =============================================================================
